@@ -44,7 +44,7 @@ func storageDissolvedDecay(inflowMass, storageInflow, storageOutflow, storageVol
 
 	if doStorageDecay < 0.5 {
 		storedMass = routing.LumpedConstituentTransport(
-			inflowMass, nil, storageOutflow, storageVolume,
+			inflowMass, data.NewArray1DFloat64(inflowMass.Len1()), storageOutflow, storageVolume,
 			initialStoredMass,
 			0.0, 0.0, deltaT,
 			outflowMass,nil)
